@@ -233,6 +233,11 @@ M('F4R', 'src/xdoctest/doctest_example.py', """                    self.exc_info
                     break
 """, """                    raise
 """, ['C09', 'C08'], 'F4 repair reverted: compile-only SyntaxError escapes run()')
+M('F9R', 'src/xdoctest/doctest_example.py', "                if directive.name == 'REQUIRES':", "                if False:", ['C04'],
+  'F9 repair reverted: --options=+REQUIRES(..) stored as a bool')
+M('F9bR', 'src/xdoctest/directive.py', "self._global_state.update(copy.deepcopy(default_state))",
+  "self._global_state.update(default_state)", ['C11'],
+  'F9 repair, second site reverted: the REQUIRES set of the session defaults is shared by every doctest')
 M('F17R', 'src/xdoctest/doctest_example.py', """                part_directive = None
                 try:
                     try:
